@@ -314,6 +314,10 @@ macro_rules! jq_curve {
                     let d = bytes(arg(a, 1)?)?;
                     put(crrl::$m::Point::hash_to_curve(name, &d), rg)
                 },
+                "map_to_curve" => {
+                    let f = <$F>::decode_reduce(&bytes(arg(a, 0)?)?);
+                    put(crrl::$m::Point::verif_map_to_curve(&f), rg)
+                },
                 "coords" => { let p = pt(0, rg)?; let c = p.verif_coords();
                     Ok(format!("{} {} {} {}", ohex(&c[0].encode()), ohex(&c[1].encode()), ohex(&c[2].encode()), ohex(&c[3].encode()))) },
                 "jextra" => { $xf(a) },
@@ -369,6 +373,12 @@ curve!(g_gls254, gls254,
             let name = arg(a, 0)?; let name = if name == "-" { "" } else { name };
             let d = bytes(arg(a, 1)?)?;
             put(crrl::gls254::Point::hash_to_curve(name, &d), rg)
+        },
+        "map_to_curve" => {
+            let (f, ok) = GFb254::decode_ct(&bytes(arg(a, 0)?)?);
+            let mut okk = ok; untaint_val(&mut okk);
+            if okk == 0 { return Err("field element does not decode".into()); }
+            put(crrl::gls254::Point::verif_map_to_curve(&f), rg)
         },
     });
 
